@@ -27,6 +27,11 @@ type CheckCtx struct {
 	ReplayDir string
 	VerifDir  string
 
+	// RaceSamples: how many scenarios are re-executed with the -race worker after the exploration.
+	RaceSamples int
+	raceSamples []raceSample
+	inRaceLeg   bool
+
 	mu       sync.Mutex
 	found    map[string]*foundViolation
 	order    []string
@@ -50,6 +55,11 @@ func (c *CheckCtx) Expired() bool { return time.Now().After(c.Deadline) }
 // returns the outcome.
 func (c *CheckCtx) RunScenario(sc *Scenario, simIndex int) (*Outcome, error) {
 	sc.Property = c.Prop
+	c.mu.Lock()
+	if !c.inRaceLeg && len(c.raceSamples) < c.RaceSamples && sc.Kind != "infl" {
+		c.raceSamples = append(c.raceSamples, raceSample{sc, simIndex})
+	}
+	c.mu.Unlock()
 	if d := os.Getenv("VERIF_DUMP_DIR"); d != "" {
 		writeJSON(filepath.Join(d, fmt.Sprintf("%s-%d-%d.json", c.Prop, simIndex, c.scens.Load())), sc)
 	}
@@ -112,6 +122,46 @@ func scenarioName(sc *Scenario) string {
 		n += "/race"
 	}
 	return n
+}
+
+type raceSample struct {
+	sc  *Scenario
+	sim int
+}
+
+// RaceLeg re-executes the first scenarios of the exploration with the worker built under the race
+// detector (GOMAXPROCS 16). Schedules of real goroutines are not the simulator's to choose, so this
+// leg samples: a report is a violation (class data-race), silence proves nothing.
+func (c *CheckCtx) RaceLeg() {
+	if c.Env.RaceWorkerBin == "" || len(c.raceSamples) == 0 {
+		return
+	}
+	c.mu.Lock()
+	c.inRaceLeg = true
+	c.mu.Unlock()
+	env := *c.Env
+	env.WorkerBin = c.Env.RaceWorkerBin
+	env.GoMaxProcs = 16
+	env.Timeout = 4 * c.Env.Timeout
+	saved := c.Env
+	c.Env = &env
+	defer func() { c.Env = saved }()
+	var wg sync.WaitGroup
+	sem := make(chan struct{}, c.Par)
+	for _, rs := range c.raceSamples {
+		wg.Add(1)
+		sem <- struct{}{}
+		go func(rs raceSample) {
+			defer wg.Done()
+			defer func() { <-sem }()
+			sc := cloneScenario(rs.sc)
+			if _, err := c.RunScenario(sc, rs.sim); err != nil {
+				return
+			}
+			c.Env.Stats.Add("race-leg-scenarios", 1)
+		}(rs)
+	}
+	wg.Wait()
 }
 
 // SimFunc runs simulation i.
@@ -191,6 +241,7 @@ func (c *CheckCtx) Finish(wall time.Duration) int {
 		return strings.HasSuffix(keys[a], "/control") && !strings.HasSuffix(keys[b], "/control")
 	})
 	nondet := false
+	var unreproduced []string
 	nViol := 0
 	for _, k := range keys {
 		f := c.found[k]
@@ -211,7 +262,7 @@ func (c *CheckCtx) Finish(wall time.Duration) int {
 		// A difference between two executions under the SAME schedule (class .../control) is
 		// nondeterminism that no seam owns: it is a violation by itself but replays only
 		// statistically, so it gets several attempts and is not minimised step by step.
-		uncontrolled := strings.HasSuffix(f.V.Class, "/control")
+		uncontrolled := strings.HasSuffix(f.V.Class, "/control") || f.V.Class == "data-race"
 		// every other violation is expected to replay at once; a few more attempts are granted because a
 		// changed tree may bring nondeterminism of its own (sync.Pool, goroutines) that no seam owns -
 		// the report then says on which attempt it reproduced
@@ -220,9 +271,15 @@ func (c *CheckCtx) Finish(wall time.Duration) int {
 			attempts = 20
 		}
 		firstTry := true
+		execEnv := c.Env
+		if f.V.Class == "data-race" && c.Env.RaceWorkerBin != "" {
+			e := *c.Env
+			e.WorkerBin, e.GoMaxProcs, e.Timeout = c.Env.RaceWorkerBin, 16, 4*c.Env.Timeout
+			execEnv = &e
+		}
 		reproduced := 0
 		for a := 0; a < attempts && reproduced == 0; a++ {
-			out, err := ExecuteScenario(c.Env, sc)
+			out, err := ExecuteScenario(execEnv, sc)
 			if err != nil {
 				fmt.Fprintf(c.Out, "ERROR property=%s replay of %s failed: %v\n", c.Prop, k, err)
 				return 2
@@ -239,8 +296,12 @@ func (c *CheckCtx) Finish(wall time.Duration) int {
 				nViol--
 				continue
 			}
-			fmt.Fprintf(c.Out, "ERROR property=%s violation %s did not reproduce on immediate replay (%d attempts; first: %s)\n", c.Prop, k, attempts, f.V.Detail)
-			return 2
+			// decided at the end: next to a confirmed violation this is a footnote, on its own it is
+			// infrastructure trouble (exit 2) - never a VIOLATION, never a silent pass
+			unreproduced = append(unreproduced, fmt.Sprintf("%s seen %dx, did not reproduce in %d immediate replays (first: %s)", k, f.Count, attempts, f.V.Detail))
+			reported--
+			nViol--
+			continue
 		}
 		if uncontrolled {
 			nondet = true
@@ -261,7 +322,7 @@ func (c *CheckCtx) Finish(wall time.Duration) int {
 		detail := f.V.Detail
 		confirmed := false
 		for a := 0; a < attempts && !confirmed; a++ {
-			if o2, err := ExecuteScenario(c.Env, min); err == nil {
+			if o2, err := ExecuteScenario(execEnv, min); err == nil {
 				for _, v := range o2.Violations {
 					if v.Key() == k {
 						detail = v.Detail
@@ -285,6 +346,14 @@ func (c *CheckCtx) Finish(wall time.Duration) int {
 	}
 	if nViol > reported {
 		fmt.Fprintf(c.Out, "  (%d further violation classes not minimised)\n", nViol-reported)
+	}
+	for _, u := range unreproduced {
+		if exit == 1 {
+			fmt.Fprintf(c.Out, "  (also: %s)\n", u)
+		} else {
+			fmt.Fprintf(c.Out, "ERROR property=%s violation %s\n", c.Prop, u)
+			exit = 2
+		}
 	}
 	c.Env.Stats.Add("violations", int64(nViol))
 	return exit
